@@ -99,7 +99,7 @@ TAttEnd ==
      /\ fresh' = IF Ev.ok THEN TRUE ELSE fresh
      /\ capUpTo' = IF Ev.ok THEN Len(wal) ELSE capUpTo
      /\ tmp' = FALSE /\ pc' = "idle" /\ att' = Att0
-     /\ UNCHANGED <<svars, nw, nck, nrs, leftover>>
+     /\ UNCHANGED <<svars, nw, nck, leftover>>
      /\ Flags(F(Ev.ok = ~att.err, "ckpt:error-mismatch" \o sfx)
               \cup F(Ev.ok \/ Ev.errc = "busy", "ckpt:unexpected-error" \o okout)
               \cup F(<<Ev.code, Ev.pages, Ev.moved>> = <<att.code, att.pages, att.moved>>, "ckpt:meta-mismatch" \o okout)
